@@ -207,6 +207,10 @@ def decodePayload (pk : PK) (body : Bytes) : Out Payload :=
     | .ok s => .ok (.str s)
     | .err => .err
 
+/-- a row of the read table applies to (record type, data type, payload length) -/
+def readRowMatches (rt dt plen : Nat) (r : Nat × Nat × Option Nat × PK) : Bool :=
+  r.1 == rt && (r.2.1 == dt && (match r.2.2.1 with | none => true | some k => k == plen))
+
 /-- `read_record`: one record from the front of the byte string. -/
 def readRecord (bs : Bytes) : Out (Rec × Bytes) :=
   match bs with
@@ -224,8 +228,7 @@ def readRecord (bs : Bytes) : Out (Rec × Bytes) :=
           | dt :: rest3 =>
             if (Gen.gdsDataTypes.find? (fun r => r.2 == dt)).isNone then .err
             else
-              match Gen.gdsReadTable.find? (fun r => r.1 == rt && r.2.1 == dt &&
-                        (match r.2.2.1 with | none => true | some k => k == plen)) with
+              match Gen.gdsReadTable.find? (readRowMatches rt dt plen) with
               | none => .err                                                     -- RecordDecode
               | some row =>
                 if rest3.length < plen then .err                                 -- read_exact: EOF
